@@ -689,8 +689,14 @@ def select__subsequence(self: XPathFunction, context: ta.ContextType = None) \
         if not isinstance(length, float) or math.isfinite(length):
             length = int(round_number(length))
 
+        try:
+            stop = starting_loc + length
+        except OverflowError:
+            # an infinity plus an integer beyond the double range
+            stop = starting_loc if isinstance(starting_loc, float) else length
+
         for pos, result in enumerate(self[0].select(context), start=1):
-            if starting_loc <= pos < starting_loc + length:
+            if starting_loc <= pos < stop:
                 yield result
 
 
